@@ -457,7 +457,7 @@ impl Scenario for TrioScn {
                                     // asset valued at the realised price, in a pool where that price is >= 2
                                     // known-finding classes. Dust: the realised exchange rate of one of the two legs is
                                     // >= 2 (local slope above 1, i.e. one base unit of one asset is worth several of the
-                                    // other) and the gain is at most two units of the offered asset plus two units of the
+                                    // other) and the gain is at most four units of the offered asset plus four units of the
                                     // intermediate asset at that rate, or (large swaps) at most 1e-6 of the amount — the relative
                                     // precision lost by the truncating divisions. Extreme: one reserve nearly drained.
                                     let price = ((back + ret - 1) / ret.max(1)).max(1);
@@ -467,7 +467,7 @@ impl Scenario for TrioScn {
                                     let ratio = rmax / rmin.max(1);
                                     let sig = if ratio >= 1000 {
                                         "inexact-math-profit@extreme-imbalance"
-                                    } else if (price >= 2 || price_up >= 2 || ratio >= 4) && back <= amount + (2 * price + 2).max(amount / 1_000_000) {
+                                    } else if (price >= 2 || price_up >= 2 || ratio >= 4) && back <= amount + (4 * price + 4).max(amount / 1_000_000) {
                                         "rounding-dust-profit@imbalanced"
                                     } else {
                                         ""
